@@ -1861,6 +1861,9 @@ class TenSym(PySym):
                 if isinstance(recv_, Obj) and (s.value.func.attr in (recv_.__dict__.get("_methods") or {}) or callable(getattr(recv_, s.value.func.attr, None))):
                     self.ex(s.value)
                     return
+            if isinstance(s.value, (ast.Compare, ast.Name, ast.Attribute, ast.Subscript, ast.BinOp, ast.BoolOp)):
+                self.ex(s.value)        # an expression evaluated for nothing (e.g. a comparison left where an assert was meant): no effect
+                return
             raise Unsupported("expression statement %s" % src(s)[:40])
         elif isinstance(s, ast.If):
             try:
@@ -1900,6 +1903,15 @@ class TenSym(PySym):
                     break
             if not broke:
                 self.block(s.orelse)
+        elif isinstance(s, ast.With):
+            # `with X as f:` - the body is evaluated with f bound to X.__enter__() when the model defines it, else to X; __exit__ is not modelled
+            for item in s.items:
+                cm_ = self.ex(item.context_expr)
+                ent = getattr(cm_, "__enter__", None) if isinstance(cm_, Obj) else None
+                val_ = ent() if callable(ent) else cm_
+                if item.optional_vars is not None:
+                    self.bind(item.optional_vars, val_)
+            self.block(s.body)
         elif isinstance(s, ast.Try):
             try:
                 self.block(s.body)
